@@ -27,7 +27,7 @@ func init() {
 			for _, decl := range r.W.AllFuncs(pkg) {
 				occ := 0
 				c := decl.Ctx()
-				ast.Inspect(decl.Body(), func(x ast.Node) bool {
+				core.InspectBody(decl, func(x ast.Node) bool {
 					lit, ok := x.(*ast.CompositeLit)
 					if !ok {
 						return true
